@@ -13,11 +13,44 @@ Proof. reflexivity. Qed.
 Lemma lang_node_sentinel cl n : sentinel n -> lang_node cl n = [([], 0)].
 Proof. intros (H1 & H2 & H3). unfold lang_node. rewrite H1, H2, H3. reflexivity. Qed.
 
+Lemma compile_geom0 b n b' r :
+  r_rows (b_reg b) * r_cols (b_reg b) = 0 -> compile b n = (b', r) -> b_reg b' = b_reg b.
+Proof.
+  intros Hg Hc. unfold compile in Hc.
+  destruct (n_final n && _ && _); [inversion Hc; reflexivity|].
+  unfold reg_entry in Hc. rewrite Hg in Hc. change (0 =? 0) with true in Hc. cbv iota in Hc.
+  destruct (compile_node _ _ _ n); inversion Hc; reflexivity.
+Qed.
+
+Lemma compile_log_nosent b n x : In x (BuilderBasics.compile_log b n) -> ~ is_sentinel (snd x).
+Proof.
+  unfold BuilderBasics.compile_log. destruct (BuilderBasics.trivial_node n) eqn:Ht; [intros []|].
+  assert (Hn : ~ is_sentinel n).
+  { intros (H1 & H2 & H3). unfold BuilderBasics.trivial_node in Ht. rewrite H1, H2, H3 in Ht. discriminate. }
+  destruct (snd (reg_entry (b_reg b) n)); [intros []| |];
+    (destruct (snd (compile b n)); [intros [<-|[]]; exact Hn|intros []|intros []]).
+Qed.
+
+Lemma Ginv_step zg b n b' a E E' :
+  compile b n = (b', Ok a) -> a <> NONE_ADDRESS ->
+  strip E' = BuilderBasics.compile_log b n ++ strip E ->
+  Ginv zg b E -> Ginv zg b' E'.
+Proof.
+  intros Hc Hna Hstrip (G1 & G2). split.
+  - rewrite Hstrip. apply Forall_app. split; [|exact G1]. apply Forall_forall. intros x Hx.
+    eapply compile_log_nosent; eauto.
+  - destruct zg.
+    + rewrite (compile_geom0 b n b' _ G2 Hc). exact G2.
+    + rewrite Hstrip. destruct (BuilderBasics.compile_ok b n b' a Hc) as (_ & _ & _ & HH).
+      apply (HH _ G2). exact Hna.
+Qed.
+
 Section Main.
 Hypothesis Hcodec : codec_statement.
 Hypothesis Htotal : compile_total_statement.
 Variable ty : N.
 Variable ver : N.
+Variable zg : bool.
 Hypothesis Hver : 1 <= ver <= 3.
 
 (* compile, as seen from the stack: the returned address denotes the requested node *)
@@ -32,21 +65,31 @@ Lemma compile_ok2 E b n b' r :
     (forall x, In x (n_trans n) -> t_addr x <= a) /\
     (forall a0, In a0 (addrs E') -> In a0 (addrs E) \/ a0 = a) /\
     (E' = E \/ exists s, E' = (a, s) :: E /\ bn_of s = n) /\
-    (bbytes b -> bbytes b').
+    (bbytes b -> bbytes b') /\
+    ((a = 0 /\ n_trans n = []) \/ exists s, In (a, s) E' /\ bn_of s = n) /\
+    (Ginv zg b E -> Ginv zg b' E').
 Proof.
   intros Hm Hn Hsz Hc.
   pose proof (compile_bbytes ver ty E b n b' r Hm Hn Hsz Hc) as Hbb.
   destruct (compile_ok Hcodec Htotal ver ty E b n b' r Hver Hm Hn Hsz Hc)
-    as (E' & a & Hr & Hm' & F1 & F2 & F3 & Hcase).
+    as (E' & a & Hr & Hm' & F1 & F2 & F3 & Hcase & Hstrip).
   assert (Hstr : E' = E \/ exists s, E' = (a, s) :: E /\ bn_of s = n).
   { destruct Hcase as [(-> & _)|(s & -> & Hs)]; [left; reflexivity|right; exists s; auto]. }
+  assert (Hnode : (a = 0 /\ n_trans n = []) \/ exists s, In (a, s) E' /\ bn_of s = n).
+  { destruct Hcase as [(-> & [(-> & _ & Hnt & _)|(s & Hin & Hs)])|(s & -> & Hs)]; [left; auto|right; eauto|].
+    right. exists s. split; [left; reflexivity|exact Hs]. }
+  assert (Hna0 : a <> NONE_ADDRESS).
+  { destruct Hnode as [(-> & _)|(s & Hin & _)]; [rewrite none_address_1; lia|].
+    destruct Hm' as (HE' & _). destruct (store_in_node_ok _ _ _ HE' Hin) as (_ & _ & H16). rewrite none_address_1. lia. }
+  assert (HG : Ginv zg b E -> Ginv zg b' E').
+  { subst r. apply (Ginv_step zg b n b' a E E'); auto. }
   exists E', a. split; [exact Hr|]. split; [exact Hm'|]. do 3 (split; [assumption|]).
   cut (ext1 E E' /\ len E' <= len E + 1 /\ tgt_ok E' a /\ a <> NONE_ADDRESS /\
        elang E' a = lang_node (elang E) n /\
        (forall x, In x (n_trans n) -> t_addr x <= a) /\
        (forall a0, In a0 (addrs E') -> In a0 (addrs E) \/ a0 = a)).
   { intros X. decompose [and] X. splits; auto. }
-  clear Hstr Hbb.
+  clear Hstr Hbb Hnode HG Hna0 Hstrip.
   destruct Hm as (HE & _). destruct Hm' as (HE' & _).
   destruct Hcase as [(-> & [(-> & Hs)|(s & Hin & Hs)])|(s & -> & Hs)].
   - split; [left; reflexivity|]. split; [lia|]. split; [left; reflexivity|].
@@ -117,7 +160,8 @@ Lemma cfr_ok : forall rest u b addr E k L keep b' r,
           rev rst = lo ++ [mkUnf (freeze p a) None])) /\
     strim E' /\ bbytes b' /\
     (forall v, cgood E -> Cpost (elang E) (rev rest ++ [vtop u addr]) [] keep v ->
-               cgood E' /\ Cpost (elang E') (rev rst) [] keep v).
+               cgood E' /\ Cpost (elang E') (rev rst) [] keep v) /\
+    (Ginv zg b E -> Rinv E (rev rest ++ [vtop u addr]) -> Ginv zg b' E' /\ Rinv E' (rev rst)).
 Proof.
   induction rest as [|p rest IH]; intros u b addr E k L keep b' r Hm Hs Hnone Hsz Htrim Hbb Htt Hc.
   - (* nothing to pop *)
@@ -147,7 +191,7 @@ Proof.
       destruct (shape_two _ _ _ _ (s_shape _ _ _ _ Hs)) as (_ & c0 & o0 & Hp0 & _).
       destruct (compile b (u_node (vtop u addr))) as [b1 r1] eqn:Hc1.
       destruct (compile_ok2 E b _ b1 r1 Hm Hnok) as
-        (E1 & a1 & -> & Hm1 & F1 & F2 & F3 & Hext & Hlen & Htg & Hna & Hla & Hle & Hnew & Hstr & Hbb1); auto.
+        (E1 & a1 & -> & Hm1 & F1 & F2 & F3 & Hext & Hlen & Htg & Hna & Hla & Hle & Hnew & Hstr & Hbb1 & Hnode1 & HG1); auto.
       { unfold len in *. cbn [length] in Hsz. lia. }
       destruct (N.eqb_spec a1 NONE_ADDRESS) as [X|_]; [contradiction|].
       destruct Hm1 as (HE1 & Hm1').
@@ -157,7 +201,7 @@ Proof.
       { destruct Hstr as [->|(s & -> & Hsn)]; [exact Htrim|]. cbn [strim]. split; [exact Htrim|].
         rewrite Hsn. apply Htt. cbn [length] in Hlt |- *. lia. }
       destruct (IH p b1 (Some a1) E1 (firstn (length rest) k) L keep b' r) as
-        (E' & rst & Hr & Hm' & G1 & G2 & Glen & Gs & Gcase & Gtrim & Gbb & GC); auto.
+        (E' & rst & Hr & Hm' & G1 & G2 & Glen & Gs & Gcase & Gtrim & Gbb & GC & GGR); auto.
       { split; auto. }
       { discriminate. }
       { unfold len, NODE_MAX in *. cbn [length] in *. lia. }
@@ -177,6 +221,9 @@ Proof.
         -- destruct Hstr as [->|(s & -> & Hsn)]; [exact Hcg|]. cbn [cgood]. split; [exact Hcg|].
            rewrite Hsn. eapply Cpost_top_Fro; eauto. exact (s_shape _ _ _ _ Hs).
         -- cbn [vtop]. eapply pop_step_C; eauto.
+      * intros HG HR. cbn [rev] in HR. rewrite <- app_assoc in HR. cbn [app] in HR.
+        apply GGR; [apply HG1; exact HG|]. cbn [vtop].
+        eapply pop_step_R; eauto.
     + assert (Hlt : Nat.ltb (S keep) (length (u :: p :: rest)) = false) by (apply Nat.ltb_ge; lia).
       cbn [length] in Hge.
       assert (Hv : (match addr with
@@ -223,7 +270,8 @@ Lemma compile_from_ok E b k L keep b' r :
           b_stack b' = lo ++ [mkUnf (freeze p a) None])) /\
     strim E' /\ bbytes b' /\
     (forall v, cgood E -> Cpost (elang E) (b_stack b) [] keep v ->
-               cgood E' /\ Cpost (elang E') (b_stack b') [] keep v).
+               cgood E' /\ Cpost (elang E') (b_stack b') [] keep v) /\
+    (Ginv zg b E -> Rinv E (b_stack b) -> Ginv zg b' E' /\ Rinv E' (b_stack b')).
 Proof.
   intros Hm Hs Hsz Htrim Hbb Htf Hc. unfold compile_from in Hc.
   destruct (shape_top _ _ (s_shape _ _ _ _ Hs)) as (lo0 & t & Hst & Ht & Hlo0).
@@ -231,7 +279,7 @@ Proof.
   rewrite Hst, rev_app_distr in Hc. cbn [rev app] in Hc.
   destruct (compile_from_rev b (t :: rev lo0) keep None) as [b1 r1] eqn:Hc1.
   destruct (cfr_ok (rev lo0) t b None E k L keep b1 r1) as
-    (E' & rst & -> & Hm' & G1 & G2 & Glen & Gs & Gcase & Gtrim & Gbb & GC); auto.
+    (E' & rst & -> & Hm' & G1 & G2 & Glen & Gs & Gcase & Gtrim & Gbb & GC & GGR); auto.
   { cbn [vtop]. rewrite rev_involutive, <- Hst. exact Hs. }
   { rewrite Hst in Hsz. unfold len in *. rewrite app_length in Hsz. cbn [length] in *. rewrite rev_length. lia. }
   { rewrite rev_length. intros Hk. cbn [vtop]. destruct (Htf t) as [X|X].
@@ -248,6 +296,9 @@ Proof.
     + right. split; [lia|]. rewrite rev_involutive in Grev. exists lo, p, (hi ++ [t]), a.
       rewrite Hst, Grev, <- app_assoc. splits; auto.
   - intros v Hcg HC. apply GC; auto. cbn [vtop]. rewrite rev_involutive, <- Hst. exact HC.
+  - intros HG HR.
+    assert (HR' : Rinv E (rev (rev lo0) ++ [vtop t None])) by (cbn [vtop]; rewrite rev_involutive, <- Hst; exact HR).
+    destruct (GGR HG HR') as (A & B). split; [exact A|exact B].
 Qed.
 
 (* ---------- order facts about the common prefix ---------- *)
